@@ -70,16 +70,7 @@ def chainFrom (p : V) : List (V × V) → Bool
   | (a, b) :: r => decide (a = p) && chainFrom b r
 
 /-- The new value of the last note (`zero` if nothing was reported). -/
-def lastNew (zero : V) : List (V × V) → V
-  | [] => zero
-  | [(_, b)] => b
-  | _ :: r => lastNew zero r
-
-/-- Every reported change is a real one: `(a,b)` with `a ≠ b`, except that the initial note
-`(zero, zero)` may be requested explicitly (`triggerWithInitialZeroValue`). -/
-def realChanges (zero : V) (flag : Bool) : List (V × V) → Bool
-  | [] => true
-  | (a, b) :: r => (decide (a ≠ b) || (flag && decide (a = zero) && decide (b = zero))) && r.all (fun p => decide (p.1 ≠ p.2))
+def lastNew (zero : V) (l : List (V × V)) : V := (l.getLast?.map Prod.snd).getD zero
 
 /-- The whole C13 predicate for a Variable subscription whose log was taken at quiescence:
 `active` = never unsubscribed, `final` = `Get()` at quiescence. -/
